@@ -706,8 +706,105 @@ func runC09(r *Run) {
 		})
 	}
 
-	n := r.N(160, 1500)
-	r.Cases(100, n, 12, func(c *Case, rng *Rng) { c09Random(r, c, rng) })
+	// ---- systematic sweep: every combination of the options the contract mentions
+	//   version v1: filter result kind (none/object/scalar/array/null/string) x keepFullObjectsInMemory x group x
+	//   includeSnapshotsFrom (none / self / the other binding) = 6*2*2*3 = 72 hooks, each with a kubernetes binding,
+	//   a second (snapshot-only) binding, a schedule, a validating, a mutating and a conversion binding carrying the
+	//   same group / include options, and a fixed script of cluster changes;
+	//   version v0: filter kind x event list = 6*4 = 24 hooks.
+	filters := []*jqF{nil, objF(fld("r", path("spec", "replicas")), fld("n", path("metadata", "name"))), path("spec", "replicas"),
+		arrF(path("spec", "replicas"), path("spec", "a")), path("nope"), path("metadata", "name")}
+	incs := [][]string{nil, {"k1"}, {"k2"}}
+	r.Cases(20, 72, 12, func(c *Case, _ *Rng) {
+		k := c.Idx - 20
+		f := filters[k%6]
+		k /= 6
+		keep := k%2 == 0
+		k /= 2
+		group := []string{"", "g1"}[k%2]
+		k /= 2
+		inc := incs[k%3]
+		nsA, nsB := fmt.Sprintf("c09-%d-a", c.Idx), fmt.Sprintf("c09-%d-b", c.Idx)
+		c.Desc = fmt.Sprintf("sweep v1: filter=%v keep=%v group=%q inc=%v", f != nil, keep, group, inc)
+		spec := &c09Spec{Version: "v1", OnStartup: true,
+			KBs: []c09KB{{Name: "k1", NS: nsA, F: f, Keep: keep, Group: group, Inc: inc},
+				{Name: "k2", NS: nsB, F: path("spec", "a"), Keep: !keep, Types: []kemtypes.WatchEventType{}}},
+			Others: []c09OtherB{{Kind: "schedule", Name: "s1", Group: group, Inc: inc},
+				{Kind: "validating", Name: "v1.example.com", Group: group, Inc: inc},
+				{Kind: "mutating", Name: "m1.example.com", Group: group, Inc: inc},
+				{Kind: "conversion", Name: "conv1", Group: group, Inc: inc, From: "v1", To: "v2"}}}
+		e := c09Start(r, c, spec)
+		defer e.close()
+		if e == nil {
+			return
+		}
+		ok := e.change("put", nsA, "o2", c08Obj(nsA, "o2", 1, "x", 0)) && e.change("put", nsB, "o1", c08Obj(nsB, "o1", 4, "z", 0)) && e.sync()
+		if !ok {
+			return
+		}
+		e.mkOnStartup()
+		ok = e.change("put", nsA, "o1", c08Obj(nsA, "o1", 2, []any{int64(1), "p"}, 0)) &&
+			e.change("put", nsA, "o2", c08Obj(nsA, "o2", 3, "x", 0)) && e.change("del", nsA, "o1", nil)
+		if !ok {
+			return
+		}
+		e.mkSchedule("s1")
+		e.mkAdmission("validating", "v1.example.com", "uid-1")
+		e.mkAdmission("mutating", "m1.example.com", "uid-2")
+		e.mkConversion("conv1", "v1", "v2", "uid-3")
+		for i := range e.ctxs {
+			e.run([]int{i})
+		}
+		all := []int{}
+		for i := range e.ctxs {
+			all = append(all, i)
+		}
+		e.run(all)
+		c.Nontrivial = true
+		c.Note("sweep:v1")
+	})
+	evs := [][]string{{"add", "update", "delete"}, {"add"}, {"update", "delete"}, {"delete"}}
+	r.Cases(95, 24, 12, func(c *Case, _ *Rng) {
+		k := c.Idx - 95
+		f := filters[k%6]
+		k /= 6
+		ev := evs[k%4]
+		nsA := fmt.Sprintf("c09-%d-a", c.Idx)
+		c.Desc = fmt.Sprintf("sweep v0: filter=%v event=%v", f != nil, ev)
+		spec := &c09Spec{Version: "v0", OnStartup: true, KBs: []c09KB{{Name: "k1", NS: nsA, F: f, Keep: true, V0Events: ev}},
+			Others: []c09OtherB{{Kind: "schedule", Name: "s1"}}}
+		e := c09Start(r, c, spec)
+		defer e.close()
+		if e == nil {
+			return
+		}
+		if !e.change("put", nsA, "o2", c08Obj(nsA, "o2", 1, "x", 0)) || !e.sync() {
+			return
+		}
+		e.mkOnStartup()
+		ok := e.change("put", nsA, "o1", c08Obj(nsA, "o1", 2, "y", 0)) && e.change("put", nsA, "o2", c08Obj(nsA, "o2", 3, "x", 0)) &&
+			e.change("del", nsA, "o1", nil)
+		if !ok {
+			return
+		}
+		e.mkSchedule("s1")
+		var all []int
+		for i := range e.ctxs {
+			if e.ctxs[i].Type == kemtypes.TypeSynchronization {
+				continue
+			}
+			e.run([]int{i})
+			all = append(all, i)
+		}
+		e.run(all)
+		c.Nontrivial = true
+		c.Note("sweep:v0")
+	})
+	r.Exhaust = true
+	r.Extra["exhaustive_scope"] = "option sweep: v1 = 6 filter result kinds x keepFullObjectsInMemory x group x 3 includeSnapshotsFrom shapes (72 hooks with kubernetes/schedule/validating/mutating/conversion/onStartup contexts), v0 = 6 filter kinds x 4 event lists (24 hooks); the cluster histories are sampled, not enumerated"
+
+	n := r.N(300, 3000)
+	r.Cases(200, n, 12, func(c *Case, rng *Rng) { c09Random(r, c, rng) })
 }
 
 func c09Random(r *Run, c *Case, rng *Rng) {
